@@ -281,10 +281,22 @@ def missing_data_part(chk, prop, tier):
     cases = [c for c in cs if any(cell[1] == 0 for cell in c["grids"][0][2]) and c["dt"] in ("", "Float", "Integer")]
     step = 5 if tier == "quick" else 1
     cases = [c for i, c in enumerate(cases) if i % step == core.SEED % step]
+    # ... and the writer: every written variable is missing where any result written with it is missing, and the results themselves are left as they were
+    rw, cw = gen_cases("write")
+    chk.add_tlc("NetcdfIO write cases (missing cells)", rw, 'Mode="write": RoundTripUnionMask')
+    cw = [c for c in cw if any(cell[1] == 0 for g in c["grids"] for cell in g[2])]
+    stepw = 12 if tier == "quick" else 1
+    cases += [c for i, c in enumerate(cw) if i % stepw == core.SEED % stepw]
     records, verdicts = run_and_validate(chk, cases)
     chk.cov["distinct_nontrivial"] += len(cases)
     for rec in records:
         v = verdicts[rec["id"]]
+        if rec["mode"] == "write":
+            if v in ("C18.Mask", "C18.WriteAgain"):
+                chk.finding("%s:netcdf-write:%s" % (prop, v.split(".")[1]),
+                            "NetCDF EEMSWrite: %s (missing exactly where a result written together is missing; a result written again alone is unchanged)" % v,
+                            {"grids": rec["grids"], "observed": rec["obs"], "written_again": rec["again"]})
+            continue
         if v in ("C18.Mask", "C18.Value"):
             chk.finding("%s:netcdf-read:%s:%s" % (prop, v.split(".")[1], "MissingValue" if rec["mv"] else "file-mask"),
                         "NetCDF EEMSRead: %s (a cell missing in the file or equal to MissingValue must be missing, any other present with its value)" % v,
